@@ -9,7 +9,7 @@ import shutil
 import subprocess
 import sys
 import time
-from concurrent.futures import ThreadPoolExecutor
+from concurrent.futures import ThreadPoolExecutor, ProcessPoolExecutor
 
 from . import tlaval
 
@@ -282,6 +282,96 @@ def exec_at_line(events, line):
         else:
             break
     return last
+
+
+def exec_at_line_file(path, line):
+    """like exec_at_line, but streams the file: (first line number, events) of the execution containing 1-based `line`"""
+    start, buf = None, []
+    with open(path) as f:
+        for i, raw in enumerate(f, 1):
+            if '"k":"reset"' in raw:
+                if i > line and start is not None:
+                    break
+                start, buf = i, []
+            if start is not None:
+                buf.append(raw)
+    if start is None:
+        return None
+    return start, [json.loads(x) for x in buf if x.strip()]
+
+
+_line_rx = re.compile(r'^\{"t":(-?\d+),"k":"([^"]*)","o":"([^"]*)","i":-?\d+,"v":(-?\d+),.*?"s":(\d),"a":-?\d+')
+
+
+def _scan_one(path):
+    """streaming statistics of one trace file: executions, their signatures (distinct event sequences), which of them have a context
+    switch inside an API operation, the reset events and a short sample execution - without building the events in memory"""
+    n = 0
+    sigs, nontriv, resets = set(), set(), []
+    sample, sbuf = None, None
+    h = None
+    inop, last, switch = {}, None, False
+
+    def close():
+        nonlocal h, sample, sbuf
+        if h is None:
+            return
+        d = int.from_bytes(h.digest(), 'big')
+        sigs.add(d)
+        if switch:
+            nontriv.add(d)
+            if sample is None and sbuf is not None and len(sbuf) < 80:
+                sample = sbuf
+    with open(path) as f:
+        for raw in f:
+            m = _line_rx.match(raw)
+            if not m:
+                continue
+            t, k, o, v, st = m.groups()
+            if k == 'reset':
+                close()
+                n += 1
+                h = hashlib.blake2b(digest_size=8)
+                inop, last, switch = {}, None, False
+                resets.append(json.loads(raw))
+                sbuf = [raw] if sample is None else None
+                continue
+            if h is None:
+                continue
+            if sbuf is not None:
+                if len(sbuf) < 81:
+                    sbuf.append(raw)
+                else:
+                    sbuf = None
+            if k in LIFE:
+                continue
+            h.update(('%s|%s|%s|%s;' % (t, k, o, v)).encode())
+            if st == '1':
+                if k == 'call':
+                    inop[t] = True
+                if last is not None and last != t and inop.get(last):
+                    switch = True
+                if k == 'ret':
+                    inop[t] = False
+                last = t
+    close()
+    return n, sigs, nontriv, resets, ([json.loads(x) for x in sample] if sample else None)
+
+
+def scan_stats(files):
+    """(executions, distinct signatures, non-trivial signatures, reset events, sample execution) over all files, in parallel"""
+    total, sigs, nontriv, resets, sample = 0, set(), set(), [], None
+    if not files:
+        return total, sigs, nontriv, resets, sample
+    with ProcessPoolExecutor(max_workers=min(NCPU, len(files))) as ex:
+        for n, s1, s2, rs, sm in ex.map(_scan_one, files):
+            total += n
+            sigs |= s1
+            nontriv |= s2
+            resets += rs
+            if sample is None and sm:
+                sample = sm
+    return total, sigs, nontriv, resets, sample
 
 
 def sched_line(evs):
